@@ -16,7 +16,7 @@ from mc.result import Result
 PROPERTY = 'C01'
 LEVEL = 'model_checking'
 CHUNK = {'quick': 400, 'thorough': 2500}
-RULE = ('cases = (instructions per phase conf/setup/before-assert/assert/cleanup) x status x executor mode '
+RULE = ('program-level slice: every single stub fault (and forward+cleanup pairs) as test-case FILES through MainProgram.execute in normal / --act / --keep mode; library level: cases = (instructions per phase conf/setup/before-assert/assert/cleanup) x status x executor mode '
         '(normal / act-only) x keep-sandbox x fault plan; fault plans are enumerated by number of deviations: '
         '0 faults, every single (step, position, kind), every (forward fault, cleanup-main fault) pair, and in the '
         'thorough tier arbitrary pairs and (forward, forward, cleanup) triples; non-trivial = at least one planned fault '
@@ -378,7 +378,37 @@ def shapes(tier):
     return res
 
 
+def cli_points():
+    pts = [(('conf', 'main', i), SVH) for i in range(2)]
+    for ph, mains in (('setup', SH), ('before-assert', SH), ('assert', SH + ('FAIL',))):
+        for i in range(2):
+            pts += [((ph, 'sym', i), SYM), ((ph, 'pre', i), SVH), ((ph, 'post', i), SVH), ((ph, 'main', i), mains)]
+    for i in range(2):
+        pts += [(('cleanup', 'sym', i), SYM), (('cleanup', 'pre', i), SVH), (('cleanup', 'main', i), SH)]
+    return pts
+
+
+def cli_cases(tier):
+    """Program-level slice: the same fault plans as test-case FILES (stub instruction added to the default instruction set through the
+    public MainProgram constructor), run through MainProgram.execute."""
+    singles = [((k, kind),) for k, kinds in cli_points() for kind in kinds]
+    cleanup = [p for p in singles if p[0][0][:2] == ('cleanup', 'main')]
+    for status in (None, 'FAIL', 'SKIP'):
+        for mode in ('normal', 'act', 'keep'):
+            yield ('cli', status, mode, ())
+            for p in singles:
+                yield ('cli', status, mode, p)
+            if status is None and mode == 'normal':
+                for a in singles:
+                    if a[0][0][:2] == ('cleanup', 'main'):
+                        continue
+                    for c in cleanup:
+                        yield ('cli', status, mode, a + c)
+
+
 def cases(tier):
+    for c in cli_cases(tier):
+        yield c
     for si, shape in enumerate(shapes(tier)):
         statuses = ('PASS', 'FAIL', 'SKIP', None) if shape[0] >= 1 else (None,)
         full = (si == 0)
@@ -480,7 +510,126 @@ def reference_trace(shape, status, act_only, plan):
 FWD_PHASE_ORDER = ['setup', 'act', 'before-assert', 'assert', 'cleanup']
 
 
+def run_cli(case) -> Result:
+    from mc import procseam, cli, stubprog
+    _, status, mode, plan = case
+    plan = tuple((tuple(k), kind) for k, kind in plan)
+    pd = dict(plan)
+    res = Result()
+    res.n = 1
+    w = world.get()
+    w.reset()
+    seam = procseam.install()
+    seam.reset()
+    seam.default = {'exit': 0}
+    lines = []
+    for ph in ('conf', 'setup', 'act', 'before-assert', 'assert', 'cleanup'):
+        lines.append('[%s]' % ph)
+        if ph == 'act':
+            lines.append('% atc')
+            continue
+        if ph == 'conf' and status:
+            lines.append('status = ' + status)
+        for i in range(2):
+            f = [(k, kind) for k, kind in plan if k[0] == ph and k[2] == i]
+            lines.append('stub %s %s %s%d' % (f[0][0][1], f[0][1], ph, i) if f else 'stub none OK %s%d' % (ph, i))
+    text = '\n'.join(lines) + '\n'
+    del stubprog.LOG[:]
+    args = {'normal': [], 'act': ['--act'], 'keep': ['--keep']}[mode]
+    o = cli.run_case(text, args=args, mp=stubprog.main_program(), real_files=(mode == 'act'))
+    log = list(stubprog.LOG)
+    prevs = [e[2] for e in log if e[1] == 'PREV']
+    trace = []
+    for ph, step, tag in log:
+        if step == 'PREV':
+            continue
+        trace.append((ph, step, int(tag[-1])))
+    act_ran = any(c['name'] == 'atc' for c in seam.calls)
+    errs = []
+    if o.exc:
+        errs.append('exception: %s' % o.exc)
+    reached = [e for e in trace if e in pd]
+    steps = trace
+    if len(set(steps)) != len(steps):
+        errs.append('a step was executed twice: %s' % [e for e in set(steps) if steps.count(e) > 1])
+    vals = [e for e in steps if e[1] in ('sym', 'pre')]
+    mains = [e for e in steps if e[0] != 'conf' and e[1] in ('main', 'post')]
+    if vals and mains and max(steps.index(v) for v in vals) > min(steps.index(m) for m in mains):
+        errs.append('I1: a symbol / pre-sds validation step ran after a main / post-setup step')
+    order = [FWD_PHASE_ORDER.index(e[0]) for e in steps if e[0] != 'conf' and e[1] == 'main']
+    if order != sorted(order):
+        errs.append('I2: phases out of order')
+    for ph in ('conf', 'setup', 'before-assert', 'assert', 'cleanup'):
+        idx = [e[2] for e in steps if e[0] == ph and e[1] == 'main']
+        if idx != list(range(len(idx))):
+            errs.append('I2: [%s] main steps not in file order: %s' % (ph, idx))
+    first = reached[0] if reached else None
+    if first is not None:
+        after = steps[steps.index(first) + 1:]
+        fwd = [e for e in after if not (e[0] == 'cleanup' and e[1] == 'main')]
+        if fwd:
+            errs.append('I3: forward step(s) after the failure of %s: %s' % (first, fwd[:4]))
+        if act_ran and (first[0] in ('conf', 'setup') or first[1] in ('sym', 'pre', 'post')):
+            errs.append('I3: the action to check ran although %s failed before it' % (first,))
+    sandbox = bool(mains) or act_ran
+    cm = [e for e in steps if e[0] == 'cleanup' and e[1] == 'main']
+    skipped = status == 'SKIP' and not [f for f in reached if f[0] == 'conf']
+    if sandbox:
+        cf = [e for e in cm if e in pd]
+        want = list(range(cf[0][2] + 1)) if cf else [0, 1]
+        if [e[2] for e in cm] != want:
+            errs.append('I4: cleanup main steps %s, expected %s exactly once' % ([e[2] for e in cm], want))
+        pv = set(prevs)
+        fwd_reached = [e for e in reached if not (e[0] == 'cleanup' and e[1] == 'main')]
+        allowed = _allowed_prev(fwd_reached[0] if fwd_reached else None, mode == 'act')
+        if mode == 'act' and fwd_reached and fwd_reached[0][0] in ('before-assert', 'assert') and fwd_reached[0][1] == 'main':
+            allowed = {'ACT'}
+        if pv and not pv <= allowed:
+            errs.append('I4: cleanup was told previous phase %s, expected %s' % (sorted(pv), sorted(allowed)))
+    elif cm:
+        errs.append('I4: cleanup main ran although nothing else did')
+    # outcome
+    if mode == 'normal':
+        ident = o.out.strip()
+    elif mode == 'keep':
+        ident = o.err.split('\n')[0]
+    else:
+        ident = None
+    eff = [f for f in reached if not (mode == 'act' and f[0] in ('before-assert', 'assert') and f[1] == 'main')]
+    if ident is not None:
+        if skipped:
+            allowed_id = {'SKIPPED'}
+            if [e for e in steps if e[0] != 'conf']:
+                errs.append('I5: status SKIP but steps outside [conf] ran')
+        elif eff:
+            allowed_id = {STATUS_OF[pd[eff[0]]]} | {STATUS_OF[pd[f]] for f in eff if f[0] == 'cleanup' and f[1] == 'main'}
+            if status == 'FAIL':
+                allowed_id = {'XFAIL' if a == 'FAIL' else a for a in allowed_id}
+        else:
+            allowed_id = {'XPASS' if status == 'FAIL' else 'PASS'}
+        if ident not in allowed_id:
+            errs.append('I5: outcome %s, expected one of %s' % (ident, sorted(allowed_id)))
+        if eff and not skipped and ident not in ('PASS', 'XPASS', 'SKIPPED'):
+            # the report names the failing step's phase and source line
+            cands = [eff[0]] + [f for f in eff if f[0] == 'cleanup' and f[1] == 'main']
+            if not any(('In [%s]' % c[0]) in o.err and ('%s%d' % (c[0], c[2])) in o.err for c in cands):
+                errs.append('I5: the error report does not name the failing instruction %s: %r' % (cands, o.err[:200]))
+    if w.sandboxes() and mode != 'keep':
+        errs.append('sandbox not removed')
+    res.outcomes[('cli', mode, ident)] += 1
+    if reached:
+        res.nontrivial += 1
+    res.states.add(('cli', mode, ident, bool(reached)))
+    if errs:
+        res.violation(case, errs, {'file': text, 'trace': trace, 'prev': prevs, 'stdout': o.out[:100], 'stderr': o.err[:300]})
+    else:
+        res.validated += 1
+    return res
+
+
 def run(case) -> Result:
+    if case[0] == 'cli':
+        return run_cli(case)
     X = _build()
     shape, status, act_only, keep, plan = case
     plan = tuple((tuple(k), kind) for k, kind in plan)
